@@ -93,7 +93,9 @@ CLAIMED = {
         note="Representation independence of commitment inputs is C07/C08; associativity of the Banderwagon law is a premise (GroupLaws).",
         tech="Coq proof (monoid of tables + permutation invariance, regrouping, fraction algebra, IPA round invariant by induction on k) + differential correspondence", ref="DESIGN.md 6.1"),
     "C02": dict(
-        text="Theorems: CheckMultiProof / CheckIPAProof of the model return an error exactly on the listed shape defects "
+        text="Theorems: the whole result of CheckMultiProof is invariant under replacing every commitment, D, L_j, R_j by an "
+             "equivalent representation (any congruence respected by encoding and Equal); "
+             "CheckMultiProof / CheckIPAProof of the model return an error exactly on the listed shape defects "
              "(length mismatches, zero openings, L/R count <> numRounds) and a decision otherwise (total, no partial function); "
              "prover shape errors in the code's order; the verifier's bit-trick folding scalars equal the recursive fold of the "
              "textbook verifier. PARTIAL: cryptographic soundness is not a program property; 'the two verifiers always agree' "
@@ -165,10 +167,11 @@ CLAIMED = {
         text="Theorems: Bytes is a function of the Banderwagon class of the represented affine point only (invariant under every "
              "projective rescaling incl. the Z=1 fast path and under (x,y)->(-x,-y)), always 32 bytes; Equal holds between all "
              "representations of one class, is reflexive, symmetric, transitive (middle Y invertible), false against the "
-             "all-zero value, and is exactly equality of X/Y. PARTIAL: 'Equal <-> equal Bytes' across different computations "
-             "and 'decode(Bytes P) Equal P' need x/y injective on classes (p prime, d non-square) and the sqrt specification; "
-             "those are decided by correspondence on random operation histories over all representations.",
-        note="x/y injectivity on the subgroup (needs primality of p, d non-square) is not proved.",
+             "all-zero value, and is exactly equality of X/Y; MAIN: for all valid elements Equal <-> equal Bytes, under the "
+             "explicit premises 'p prime' and 'd non-square' (no zero divisors, the curve quadratic in y^2). PARTIAL: "
+             "'decode(Bytes P) succeeds and is Equal to P' needs completeness of the square root (C17 partial); decided by "
+             "correspondence on random operation histories over all representations.",
+        note="primality of p and non-squareness of d are premises of C07_equal_iff_bytes (not re-proved: no primality certificate available offline).",
         tech="Coq proof (representation invariance, equivalence laws) + differential correspondence on histories", ref="DESIGN.md 6.7"),
     "C11": dict(
         text="Theorems: MapToScalarField = canonical integer of X/Y in Fp reduced mod r; same value for every representation "
